@@ -18,7 +18,7 @@
  *   EC (r = first, s = second component): rx:<bit> sx:<bit> r+n s+n n-s n-r r=0 s=0 r=n s=n r=1 s=1 -r -s swap
  *       q=inf qx:<bit> qy:<bit> q=-q q=2q q=G q=foreign q=other (a point of y^2 = x^3 + ax + b + 1)
  *       infkey (identity key with the matching forged pair)  k0 (ECSS: commitment at infinity, made with d)
- *   RSA: sx:<bit> s+N zp:<j> droplast lz s=0 s=1 s=N s=N-1 N-s q=foreign emx:<off>:<xx> em=<hex>
+ *   RSA: sx:<bit> s+N zp:<j> droplast lz s=0 s=1 s=N s=N-1 N-s q=foreign emx:<off>:<xx> emtop em=<hex>
  *   BLS: sx:<bit> sy:<bit> s=inf s=-s s=2s s=H s=foreign q=foreign q=inf q=-q q=2q qx:<bit> q+T infpair
  */
 #include "vh.h"
@@ -346,6 +346,11 @@ static void do_rsa(void) {
 			buf[off] ^= (uint8_t)xx;
 			bn_read_bin(T, buf, k);
 			skip = !raw_sign(T);
+		} else if (!strcmp(m, "emtop")) {
+			/* set bit modBits - 1 of the encoded message (the first bit above emBits = modBits - 1 bits) */
+			bn_mxp(T, V, pub->e, pub->crt->n);
+			bn_set_bit(T, bn_bits(pub->crt->n) - 1, 1);
+			skip = !raw_sign(T);
 		} else if (m[0] == 'e' && m[1] == 'm' && m[2] == '=') {
 			size_t l = tok_bytes(m + 3, buf);
 			if (l == 0) bn_zero(T); else bn_read_bin(T, buf, l);
@@ -483,10 +488,11 @@ int main(int argc, char **argv) {
 		int id;
 		if (core_init() != RLC_OK) return 2;
 		bn_null(N); bn_new(N);
-		for (id = 1; id < 120; id++) {
-			int err;
+		for (id = 1; id < 400; id++) {
+			int err, code;
 			VH_TRY(err, ep_param_set(id));
-			if (!err && vh_code() == 0) {
+			code = vh_code();               /* always read: reading clears the sticky code */
+			if (!err && code == 0) {
 				ep_curve_get_ord(N);
 				printf("%d %d\n", id, (int)bn_bits(N));
 			}
